@@ -3470,11 +3470,13 @@ for _pid, _obl, _notes in [
     _d["partial_hypotheses"] = _notes
 for _pid, _ov in LEAN_OBLIGATIONS.items():
     REGISTRY[_pid].update(_ov)
-# C15: idempotence itself has no theorem (yet): the property is decided by exploration (byte comparison of two minify passes on every program of the
-# streams); the Lean obligations listed are the proved facts about the minifier it rests on.  Flip to "proof" when Props.C15_idempotent exists.
-REGISTRY["C15"]["level"] = "exploration"
-REGISTRY["C15"]["level_text"] = ("differential exploration: parse, minify, parse, minify again and compare byte for byte on generated, enumerated and corpus programs; the Lean "
-                                 "theorems listed in the evidence (same-program theorem for the minified style, layout passes) are supporting facts, not a proof of idempotence")
+# C15: the idempotence theorem (Props/C15.lean)
+REGISTRY["C15"]["modules"] = list(dict.fromkeys(["Tumfl.Props.C15"] + REGISTRY["C15"]["modules"]))
+REGISTRY["C15"]["obligations"] = list(dict.fromkeys(["Tumfl.Props.C15_idempotent", "Tumfl.Props.C15_idempotent_general", "Tumfl.Inst.minifiedStyle_repr_ok"] + REGISTRY["C15"]["obligations"]))
+REGISTRY["C15"]["partial_hypotheses"] = ["proved on the models: for every CR-free source that parse accepts, minify(parse(minify(parse(src)))) = minify(parse(src)) byte for byte, and the "
+                                         "intermediate parse succeeds (C15_idempotent for MinifiedStyle as extracted from formatter.py; C15_idempotent_general for every comment-free, "
+                                         "separator-removing style with line width 0). The statement is about the models parseText / formatI; their agreement with the Python code is the "
+                                         "T2 correspondence, and the byte comparison of two real minify passes on every program of the streams remains as the failing-input search"]
 
 
 # =========================================================================== T2 correspondence: model resolver vs tumfl resolver
